@@ -1000,3 +1000,15 @@ def pure_manual_c14(sc, base, seed):
 
 def pure_manual_c02(sc, base, seed):
     return pure_manual(sc, base, seed, pid="C02")
+
+
+def c11_order_c09(sc, base, seed):
+    return _late_registration(sc, base, seed, "C09")
+
+
+def long_loop_c13(sc, base, seed):
+    return long_loop(sc, base, seed * 5, pid="C13")
+
+
+def pure_manual_c19(sc, base, seed):
+    return pure_manual(sc, base, seed, pid="C19")
